@@ -456,6 +456,25 @@ func TestOptions(t *testing.T) {
 		touched := false
 		var labels []string
 		for i := 0; i < no; i++ {
+			if n := len(c.Options); n > 0 && rapid.IntRange(0, 5).Draw(t, "again") == 0 {
+				// the option before put a colour somewhere; this one puts the very same colour at the
+				// very same index again (WithPalette(theme), WithColorAt(i, theme[i]))
+				prev := c.Options[n-1]
+				o := prev
+				if prev.Kind == "palette" {
+					idx := c.Uses[rapid.IntRange(0, len(c.Uses)-1).Draw(t, "againwhich")]
+					v := (*prev.Palette)[idx]
+					cs := ColorSpec{Model: "RGBA", V: [4]uint16{uint16(v.R), uint16(v.G), uint16(v.B), uint16(v.A)}}
+					o = Option{Kind: rapid.SampledFrom([]string{"at", "custom"}).Draw(t, "againkind"), Index: idx, Color: &cs}
+					if !spec.Premultiplied(v) {
+						labels = append(labels, "same-nonsensical-colour-put-at-the-same-index-by-two-options-in-a-row")
+					}
+				}
+				c.Options = append(c.Options, o)
+				touched = true
+				labels = append(labels, "same-colour-put-at-the-same-index-by-two-options-in-a-row")
+				continue
+			}
 			if rapid.IntRange(0, 3).Draw(t, "kind") == 0 {
 				p := gen.Palette(t, "optpal", rapid.Bool().Draw(t, "validpal"))
 				if rapid.Bool().Draw(t, "fillused") {
